@@ -77,7 +77,12 @@ def select__pi_kind_test(self: XPathFunction, context: ta.ContextType = None) \
 def nud__pi_kind_test(self: XPathFunction) -> XPathFunction:
     self.parser.advance('(')
     if self.parser.next_token.symbol != ')':
-        self.parser.next_token.expected('(name)', '(string)')
+        token = self.parser.next_token
+        if token.symbol not in ('(name)', '(string)'):
+            if self.parser.name_pattern.match(token.symbol) is None:
+                raise token.wrong_syntax()
+            # The target is an NCName that is also the name of a function or a keyword
+            self.parser.next_token = token.as_name()
         self[0:] = self.parser.expression(5),
     self.parser.advance(')')
     return self
